@@ -522,9 +522,7 @@ func (p Parameters) MaxBit(levelQ, levelP int) (c int) {
 // If levelP > 0 or Base2Decomposition == 0, then returns 1 for all qi.
 func (p Parameters) BaseTwoDecompositionVectorSize(levelQ, levelP, Base2Decomposition int) (base []int) {
 
-	logqi := p.LogQi()
-
-	base = make([]int, len(logqi))
+	base = make([]int, len(p.qi))
 
 	if Base2Decomposition == 0 || levelP > 0 {
 		for i := range base {
@@ -532,7 +530,8 @@ func (p Parameters) BaseTwoDecompositionVectorSize(levelQ, levelP, Base2Decompos
 		}
 	} else {
 		for i := range base {
-			base[i] = (logqi[i] + Base2Decomposition - 1) / Base2Decomposition
+			// The bit length, not the rounded logarithm: a prime just above a power of two has one more bit.
+			base[i] = (bits.Len64(p.qi[i]) + Base2Decomposition - 1) / Base2Decomposition
 		}
 	}
 
